@@ -43,6 +43,10 @@ func coreLocks(tier string) []RunSpec {
 	for k := 0; k < 4; k++ {
 		out = append(out, RunSpec{Profile: "core:wallet-helpers", Params: map[string]int{"helpers": 1, "k": k}})
 	}
+	// a co-signer key listed twice, threshold one above the distinct keys that sign
+	for n := 2; n <= 4; n++ {
+		out = append(out, RunSpec{Profile: "core:duplicate-key", Params: map[string]int{"dupkey": 1, "nsigs": n, "wv": 6, "flag": 0, "lt": 0}})
+	}
 	return out
 }
 
@@ -75,6 +79,10 @@ func (lr *lockRun) drawCfg(rc *RunCtx) *LockCfg {
 	}
 	if np > 0 && T.Chance("lock.pkdup", 1, 8) {
 		c.Pubkeys = append(c.Pubkeys, c.Pubkeys[0]) // a key listed twice
+	}
+	if rc.P("dupkey", 0) == 1 {
+		c.Pubkeys = []int{1, 2, 1}
+		c.NSigs = rc.P("nsigs", 3)
 	}
 	lt := T.Pick("lock.lt", 3, 2, 2)
 	if v, ok := rc.Spec.Params["lt"]; ok {
